@@ -1,7 +1,7 @@
 (* C01 — Two endpoints built on the library interoperate, even across transport loss.
    Statements only.  Nothing else may be added to this file. *)
 From MQ Require Import Base.Prelude Alloc.Alloc Alloc.AllocProofs Framing.Framing Framing.FramingProofs Conn.Types Conn.ConnRecord Conn.Step
-                       Corr.ConnTrace Conn.Scope Conn.Session Conn.IdsQuota Conn.Own Conn.OwnFrame Conn.OwnStep Conn.Run Conn.PairQos Conn.PairQos0 Conn.PairQos5 Conn.PairSeq Conn.PairSeq5 Conn.PairConc Conn.PairBi Conn.PairConc5 Conn.PairBi5 Conn.PairHandshake5 Conn.PairHandshake311 Conn.PairConcIds Conn.PairManual Conn.PairManual5 Conn.PairManualSeq Conn.PairManualSeq5 Conn.PairHandshakeSeq Conn.SessInv Conn.PairLoss Conn.PairLossAcc Conn.PairLossS Conn.PairHandshakeP.
+                       Corr.ConnTrace Conn.Scope Conn.Session Conn.IdsQuota Conn.Own Conn.OwnFrame Conn.OwnStep Conn.Run Conn.PairQos Conn.PairQos0 Conn.PairQos5 Conn.PairSeq Conn.PairSeq5 Conn.PairConc Conn.PairBi Conn.PairConc5 Conn.PairBi5 Conn.PairHandshake5 Conn.PairHandshake311 Conn.PairConcIds Conn.PairConcIds5 Conn.PairManual Conn.PairManual5 Conn.PairManualSeq Conn.PairManualSeq5 Conn.PairHandshakeSeq Conn.SessInv Conn.PairLoss Conn.PairLossAcc Conn.PairLossS Conn.PairHandshakeP.
 
 (* what the pair property rests on, each proved for ALL states of one endpoint:
    (i) delivery in any fragmentation is the same byte stream (C09) *)
@@ -312,6 +312,17 @@ Theorem C01_pair_all_identifiers_released : forall gs gr l s,
                 qsr s2 = [] /\ qrs s2 = [] /\ delivered s2 = published s1 /\ forall y, is_used (cs s2) y = false.
 Proof. exact all_identifiers_released. Qed.
 Print Assumptions C01_pair_all_identifiers_released.
+
+(* ... THE QUIESCENT STATE OF THE v5.0 SYSTEM, complete (Conn/PairConcIds5.v): links empty, every message notified once in
+   order, the vacancy at the maximum, nothing outstanding at the receiver, no identifier in use at the sender *)
+Theorem C01_pair_quiescence_v5 : forall gs gr l s,
+  inv5 gs gr s -> U s -> Forall good_act5 l ->
+  exists s1 s2, run_sched5 gs gr s l = Some s1 /\ run_sched5 gs gr s1 (drain5 (measure s1)) = Some s2 /\
+                qsr s2 = [] /\ qrs s2 = [] /\ delivered s2 = published s1 /\
+                vacancy (cs s2) = c_send_max (cs s2) /\ c_publish_recv (cr s2) = [] /\
+                forall y, is_used (cs s2) y = false.
+Proof. exact quiescence5. Qed.
+Print Assumptions C01_pair_quiescence_v5.
 
 (* ... end to end from freshly constructed objects and any Clean Session handshake *)
 Theorem C01_fresh_v311_all_identifiers_released : forall gA gB cn ca l,
